@@ -631,15 +631,16 @@ def main():
     baseline = set(base_json["obligations"])
     # bounded stand-in: run the witness enumerator when one of the bounded-only functions changed, or in the thorough tier
     bounded_info = None
-    if bounded.get("functions"):
+    if bounded.get("functions") or (meta.get("witness") and tier == "thorough"):
         changed = sorted(p_ for p_, h_ in bounded_hashes.items() if base_json.get("bounded_hashes", {}).get(p_) != h_)
         ran = False
         bw, bsumm, blog = [], None, "not run: bounded-only functions unchanged since the baseline (quick tier)"
         if (changed or tier == "thorough") and os.environ.get("VERIF_NO_WITNESS") != "1" and not args.update_baseline:
             bw, bsumm, blog = run_witness(meta, unit)
             ran = True
-        bounded_info = dict(label="BOUNDED (never counted as proved)", statement=bounded.get("statement", ""), bound=bounded.get("bound", ""),
-                            functions=bounded.get("functions"), changed_since_baseline=changed, ran=ran, log=blog, summary=bsumm,
+        bounded_info = dict(label="BOUNDED (never counted as proved)", statement=bounded.get("statement", "differential test of the public API against an executable transcription of the specification"),
+                            bound=bounded.get("bound", meta.get("witness_bound", "see witness/src/bin/%s.rs" % meta.get("witness"))),
+                            functions=bounded.get("functions", []), changed_since_baseline=changed, ran=ran, log=blog, summary=bsumm,
                             disagreements=len(bw), samples=bw[:3])
         if bw:
             rp_path = os.path.join(OUT, "replay", "%s.bounded.json" % unit)
